@@ -57,6 +57,18 @@ def judge_ci(case):
                          % (n, p, conf, method, lo, hi, z)], "tags": tags}
     if not (lo <= hi):
         viol.append("lower %r > upper %r for n=%r p=%r conf=%r %s" % (lo, hi, n, p, conf, method))
+    # the helpers are pure: asking again (right away, and after other calls in between) gives the same answer
+    try:
+        again = S.confidence_interval(n, p, conf, method)
+        S.probit(0.3)
+        S.confidence_interval(7, 0.5, 0.5, "wald")
+        third = S.confidence_interval(n, p, conf, method)
+        z_again = S.probit((1 - conf) / 2)
+    except Exception as e:
+        return {"viol": ["repeated call raised %s: %s" % (type(e).__name__, e)], "tags": tags}
+    if (lo, hi) != tuple(again) or (lo, hi) != tuple(third) or z != z_again:
+        viol.append("confidence_interval(%r,%r,%r,%r) is not repeatable: %r, then %r, then %r (z %r / %r)"
+                    % (n, p, conf, method, (lo, hi), again, third, z, z_again))
     elo, ehi = _textbook(n, p, conf, method, z)
     if not (_close(lo, elo) and _close(hi, ehi)):
         viol.append("(%r, %r) differs from the textbook %s interval (%r, %r) with z=%r for n=%r p=%r conf=%r"
@@ -96,6 +108,14 @@ def judge_probit(case):
         viol.append("probit not symmetric: probit(%r)=%r, probit(1-%r)=%r" % (a, z, a, z2))
     if not (isinstance(z, float) and math.isfinite(z)):
         return {"viol": ["probit(%r) = %r is not a finite float" % (a, z)], "tags": ["probit"]}
+    # strictly monotone on each side of 0.5 - also for alphas that agree to many decimals (no rounded-key memo)
+    for b, strict in ((a * (1 - 1e-7), True), (a * 0.5, True), (math.nextafter(a, 0.0), False)):
+        if 0 < b < a <= 0.5:
+            zb = S.probit(b)
+            if not (zb > z if strict else zb >= z):  # one ulp apart the two may round to the same double
+                viol.append("probit(%r)=%r is not larger than probit(%r)=%r" % (b, zb, a, z))
+    if S.probit(a) != z:
+        viol.append("probit(%r) is not repeatable: %r then %r" % (a, z, S.probit(a)))
     q = abs(NormalDist().inv_cdf(a))
     if z < q * (1 - 1e-12) - 1e-12:
         viol.append("probit(%r)=%r is smaller than the true normal quantile %r" % (a, z, q))
@@ -105,14 +125,26 @@ def judge_probit(case):
 
 
 def judge_unknown(case):
+    """an unknown method is refused - also when asked again right away, and also right after a successful call with the
+    same numbers (a remembered result must never stand in for a refusal)"""
     S = sut.stats_mod()
+    viol = []
     try:
-        r = S.confidence_interval(case["n"], case["p"], case["c"], case["m"])
-        return {"viol": ["unknown method %r accepted, returned %r" % (case["m"], r)], "tags": ["unknown-method"]}
-    except NotImplementedError:
-        return {"viol": [], "nontrivial": True, "tags": ["unknown-method"], "key": case, "sample": case}
+        S.confidence_interval(case["n"], case["p"], case["c"], "wald")
+        S.confidence_interval(case["n"], case["p"], case["c"])
     except Exception as e:
-        return {"viol": ["unknown method %r raised %s instead of NotImplementedError" % (case["m"], type(e).__name__)], "tags": ["unknown-method"]}
+        viol.append("valid call raised %s: %s" % (type(e).__name__, e))
+    for attempt in (1, 2, 3):
+        try:
+            r = S.confidence_interval(case["n"], case["p"], case["c"], case["m"])
+            viol.append("unknown method %r accepted on attempt %d, returned %r" % (case["m"], attempt, r))
+            break
+        except NotImplementedError:
+            pass
+        except Exception as e:
+            viol.append("unknown method %r raised %s instead of NotImplementedError (attempt %d)" % (case["m"], type(e).__name__, attempt))
+            break
+    return {"viol": viol, "nontrivial": True, "tags": ["unknown-method"], "key": case, "sample": case}
 
 
 def judge(case):
